@@ -50,6 +50,7 @@ type sCase struct {
 type topo struct {
 	base  mix
 	newIG igSpec // stored through the real save handler
+	newI2 igSpec // stored second (scenario "gens")
 	badIG igSpec // references a source configured nowhere (scenario "fail")
 	hosts []string
 	live  bool // has a task that never ends by itself
@@ -63,7 +64,20 @@ func topoOf(name string) topo {
 	t := topo{hosts: []string{"node1"}}
 	t.newIG = igSpec{Name: "igb", Enabled: true, Refs: []refSpec{r12("s1")}}
 	t.badIG = igSpec{Name: "igx", Enabled: true, Refs: []refSpec{r12("s1"), r12("sx")}}
+	t.newI2 = igSpec{Name: "igz", Enabled: true, Refs: []refSpec{r12("s1")}}
+	f3 := func(names ...string) (out []igSpec) {
+		for _, n := range names {
+			out = append(out, igSpec{Name: n, Enabled: true, Refs: []refSpec{r12("s1")}})
+		}
+		return
+	}
 	switch name {
+	case "3f": // three file integrations (the decoded slice has spare capacity); stored names sort before and after them
+		t.base = mix{FileSrcs: []srcSpec{s1}, FileIGs: f3("igc", "ige", "igg")}
+		t.newIG = igSpec{Name: "iga", Enabled: true, Refs: []refSpec{r12("s1")}}
+	case "5f": // five file integrations, one row stored before start-up, stored names between and after
+		t.base = mix{FileSrcs: []srcSpec{s1}, FileIGs: f3("igc", "ige", "igg", "igi", "igk"), DBIGs: f3("igd")}
+		t.newIG = igSpec{Name: "igf", Enabled: true, Refs: []refSpec{r12("s1")}}
 	case "1d": // one source, one file integration that ends at block 2
 		t.base = mix{FileSrcs: []srcSpec{s1}, FileIGs: []igSpec{{Name: "iga", Enabled: true, Refs: []refSpec{r12("s1")}}}}
 	case "1l": // the file integration has no stop: its runner polls for ever
@@ -106,7 +120,7 @@ func sPrepare(name string) (*sPrep, error) {
 	}
 	p := &sPrep{t: topoOf(name)}
 	var err error
-	if p.snap, err = snapshotFor([]string{"iga", "igb", "igc", "igx"}); err != nil {
+	if p.snap, err = snapshotFor([]string{"iga", "igb", "igc", "igd", "ige", "igf", "igg", "igi", "igk", "igx", "igz"}); err != nil {
 		return nil, err
 	}
 	p.conf = fileConf(p.t.base, "1ms")
@@ -136,12 +150,14 @@ type thrInfo struct {
 	children int      //
 	tasks    []string // Run thread: pairs it announced while loading (set application_name), in order
 	loaded   bool     // Run thread: read the integrations table
+	dbAtLoad []string // Run thread: names stored in shovel.integrations when it read the table
 	pair     string   // runner thread
 	inTx     bool
 	steps    int
 }
 
 type observer struct {
+	topo    *topo
 	w       *world.W
 	harness map[string]bool
 	infos   []*thrInfo // by thread id
@@ -274,6 +290,10 @@ func (ob *observer) onSQL(b simpg.Batch) {
 		case strings.HasPrefix(s, "select conf from shovel.integrations"):
 			if !ti.loaded {
 				ti.loaded = true
+				for _, r := range ob.w.PG.Dump("shovel.integrations") {
+					n, _ := r.Vals["name"].(string)
+					ti.dbAtLoad = append(ti.dbAtLoad, n)
+				}
 				ob.gens = append(ob.gens, ti)
 			}
 		case strings.HasPrefix(s, "begin"):
@@ -365,7 +385,7 @@ func sExec(j sJob, p *sPrep, win *dfsRun, states *vrt.StateSet) (res sResult) {
 	}
 	w.V.States = states
 	w.V.TraceOn = true
-	ob := &observer{w: w, harness: map[string]bool{"main": true, "boot": true, "rA": true, "rB": true}}
+	ob := &observer{topo: &p.t, w: w, harness: map[string]bool{"main": true, "boot": true, "rA": true, "rB": true}}
 	w.OnSQL = func(label string, b simpg.Batch) simpg.Fault {
 		if !w.V.Closing() && w.V.Cur() != nil {
 			ob.onSQL(b)
@@ -506,6 +526,22 @@ func sExec(j sJob, p *sPrep, win *dfsRun, states *vrt.StateSet) (res sResult) {
 			w.V.Join(startBoot())
 			restarter("rA", func() { save(p.t.newIG) })
 			restarter("rB", func() { call("restart", nil) })
+		case "gens": // one long-lived Manager: save, restart, save another, restart - every generation is judged
+			w.V.Join(startBoot())
+			restarter("rA", func() {
+				for i, step := range []*igSpec{&p.t.newIG, nil, &p.t.newI2, nil} {
+					var r *opRec
+					if step != nil {
+						r = save(*step)
+					} else {
+						r = call("restart", nil)
+					}
+					if r.Panic != "" || r.Err != "" || w.V.Closing() {
+						return
+					}
+					_ = i
+				}
+			})
 		case "late": // the request arrives when the first generation is quiescent
 			w.V.Join(startBoot())
 			w.V.WaitIdle()
@@ -640,6 +676,38 @@ func judgeFinal(w *world.W, ob *observer, j sJob, topoKind string, ops []*opRec,
 		}
 	}
 	// (3) the set being driven == the configured set, including what was stored
+	// (3') EVERY generation was loaded with exactly what was configured when it read the configuration
+	known := map[string]igSpec{}
+	for _, ig := range append(append([]igSpec{}, ob.topo.base.DBIGs...), ob.topo.newIG, ob.topo.newI2, ob.topo.badIG) {
+		known[ig.Name] = ig
+	}
+	for gi, g := range ob.gens {
+		m := ob.topo.base
+		m.DBIGs = nil
+		for _, n := range g.dbAtLoad {
+			m.DBIGs = append(m.DBIGs, known[n])
+		}
+		wg := reference(m)
+		if wg.Err {
+			continue // this generation's load must fail; judged through the request's result
+		}
+		var wp []string
+		for p := range wg.Pairs {
+			wp = append(wp, p)
+		}
+		sort.Strings(wp)
+		gp := append([]string{}, g.tasks...)
+		sort.Strings(gp)
+		if !sameStrings(gp, wp) {
+			when := "later"
+			if gi == 0 {
+				when = "first"
+			}
+			ob.violate("task-set", "S:task-set:generation:"+when+":"+j.Scen, fmt.Sprintf("generation %d of %d (%s) read the configuration when shovel.integrations held %v: configured pairs %v, but it was loaded with %v\nrequests: %s",
+				gi+1, len(ob.gens), g.t.Name, g.dbAtLoad, wp, gp, opsString(ops)))
+			return ""
+		}
+	}
 	want := reference(final)
 	if want.Err {
 		ob.herr = "final configuration has an unknown source"
@@ -722,7 +790,7 @@ func sJobs(thorough bool) []sJob {
 		parts = n
 	}
 	add := func(bound int, topos []string, scens []string) {
-		if v, _ := strconv.Atoi(os.Getenv("C20_BOUND")); v > 0 {
+		if v, err := strconv.Atoi(os.Getenv("C20_BOUND")); err == nil {
 			bound = v
 		}
 		for _, t := range topos {
@@ -742,6 +810,7 @@ func sJobs(thorough bool) []sJob {
 		add(1, []string{"1c"}, []string{"early"})
 		add(2, []string{"2d", "2l"}, []string{"after", "late"})
 		add(1, []string{"2d", "2l"}, []string{"early"})
+		add(1, []string{"3f", "5f"}, []string{"gens"})
 		add(3, []string{"1d", "1c", "1l"}, []string{"b2b"})
 		add(2, []string{"1d"}, []string{"early"})
 		return jobs
@@ -750,6 +819,7 @@ func sJobs(thorough bool) []sJob {
 	add(1, []string{"1d", "1l"}, []string{"early"})
 	add(2, []string{"1c"}, []string{"after", "late"})
 	add(1, []string{"1d", "1l"}, []string{"two"})
+	add(0, []string{"3f", "5f"}, []string{"gens"}) // bound 0: the free choices only
 	return jobs
 }
 
